@@ -165,7 +165,8 @@ func c03Craft(s *vfSim, in *c03Inj, wire []vfWireEv) []byte {
 	case "sack-gap0":
 		return mk(wChunk{Type: wtSACK, Cum: pk.CumAck, ARwnd: 1 << 20, Gaps: [][2]uint16{{0, uint16(in.A % 5)}}})
 	case "sack-gap-inverted":
-		return mk(wChunk{Type: wtSACK, Cum: pk.CumAck, ARwnd: 1 << 20, Gaps: [][2]uint16{{uint16(2 + in.A%9), uint16(1 + in.A%2)}}})
+		st := 2 + in.A%9
+		return mk(wChunk{Type: wtSACK, Cum: pk.CumAck, ARwnd: 1 << 20, Gaps: [][2]uint16{{uint16(st), uint16(st - 1 - in.B%2)}}})
 	case "sack-gap-outside":
 		return mk(wChunk{Type: wtSACK, Cum: pk.CumAck, ARwnd: 1 << 20, Gaps: [][2]uint16{{uint16(1 + pk.InflightN + in.A%40), uint16(1 + pk.InflightN + in.A%40 + in.B%7)}}})
 	case "sack-valid":
@@ -392,7 +393,7 @@ func runC03(t *testing.T, x c03Scn, verbose bool) vfCase {
 			// intact, i.e. every message written before and after the injections is delivered
 			s.doWrite(0, 70, 900, 53)
 			s.doWrite(1, 71, 900, 53)
-			s.o.run(func() bool { return vfAllDelivered(s) }, time.Now().Add(vfDrainBound(&sc)))
+			s.waitHealed(func() bool { return vfAllDelivered(s) }, vfDrainBound(&sc)+20*time.Second)
 			s.mu.Lock()
 			defer s.mu.Unlock()
 			ws, rs := s.acceptedWrites(), s.goodReads()
@@ -424,7 +425,16 @@ func runC03(t *testing.T, x c03Scn, verbose bool) vfCase {
 	if !out.HSOK && c.Verdict == "" {
 		// injections during the handshake may legitimately make it fail only if they are forgeries
 		if onlyIgnorable && !aborted {
-			c.fail("handshake-disturbed", "handshake failed although only ignorable packets were injected and no ABORT was sent: %v", out.HSErr)
+			// was it the injections or the scenario's own packet faults? run it again without them
+			sc2 := x.Sc
+			sc2.Acts = nil
+			sc2.Faults.Rules = append([]vfRule(nil), x.Sc.Faults.Rules...)
+			ref := vfRunE1(t, &sc2, vfE1Opts{bound: func(*vfSim) time.Duration { return time.Millisecond }})
+			if !ref.HSOK {
+				c.Skip = true
+				return c
+			}
+			c.fail("handshake-disturbed", "handshake failed although only ignorable packets were injected and no ABORT was sent (it succeeds without the injections): %v", out.HSErr)
 		} else {
 			c.Skip = true
 		}
